@@ -16,7 +16,7 @@ SrcAll == {"path", "fileobj", "bytesio"}
 ReadsFour == {"to_pandas", "iter", "head", "count"}
 ReadsAll == {"to_pandas", "iter", "head", "count", "filelike"}
 ColsAll == {<<>>, <<"x">>, <<"s", "x">>, <<"k">>, <<"x", "k", "s">>, <<"t", "n">>, <<"f", "t", "x">>}
-ColsFew == {<<>>, <<"s", "x">>, <<"t", "n">>}
+ColsFew == {<<>>, <<"s", "x">>, <<"t", "n">>, <<"x">>}      \* <<"x">>: on the dataset whose row index is x, a selection of index columns only
 IdxDefault == {"default"}
 IdxAll == {"default", "false", "x", "t"}
 ColsIdx == {<<>>, <<"s", "x">>, <<"f", "t", "x">>}
